@@ -818,3 +818,32 @@ example : ∃ Q, (uniformAxis 0 4 4 false false).getSlice (some 0) none (some (-
   refine ⟨Q, h1, h2, ?_, h4, h5⟩
   rw [h3]
   norm_num [uniformAxis, gminOf]
+
+/-! ## (10) round 5: the set below the partition (`IntervalProd.volume`, `IntervalProd.corners`; driver
+operation `sets`, stream `sets/corners`) -/
+
+/-- The corners of the partitioned set lie in the extreme cells, any number of axes: for every row `v` of
+`set.corners()` (`(min, max)` per non-degenerate axis, the single value on a degenerate one, C order)
+`index(v)` succeeds and, axis by axis, returns cell `0` where `v` is the lower limit and the LAST cell
+`n - 1` where it is the upper limit (the last cell is closed on the right) — for every valid partition,
+whatever the distance of the outermost nodes from the limits. -/
+theorem C14.set_corners_index (P : Part) (hv : ∀ p ∈ P, Valid p) (v : List Rat) (h : v ∈ setCorners P) :
+    ∃ ks : List Nat, ndIndex P v = some (ks.map fun (k : Nat) => (k : Int)) ∧ CornerCells P v ks :=
+  setCorners_index P hv v h
+
+example : ([3, 1] : List Rat) ∈ setCorners [⟨3, fun i => i * i, -1, 3⟩, ⟨1, fun _ => 1, 1, 1⟩] ∧
+    CornerCells [⟨3, fun i => i * i, -1, 3⟩, ⟨1, fun _ => 1, 1, 1⟩] [3, 1] [2, 0] := by
+  refine ⟨?_, Or.inr ⟨rfl, rfl⟩, Or.inl ⟨rfl, rfl⟩, trivial⟩
+  simp [setCorners]; norm_num
+
+/-- The n-d cells tile the set: the volumes of all `size` cells (outer product of the `cell_sizes_vecs`,
+C order) sum to `set.volume` = the product of the extents, for every number of axes, every shape
+(single-node axes included) and arbitrary non-uniform nodes.  (No validity needed beyond `n ≥ 1`:
+pure index arithmetic on the boundary vectors, lifted from `C14.cell_sizes_sum` to n dimensions.) -/
+theorem C14.cell_volumes_tile (P : Part) (h : ∀ p ∈ P, 1 ≤ p.n) :
+    (ndCellVolumes P).length = ndSize P ∧ sumList (ndCellVolumes P) = setVolume P :=
+  ⟨ndCellVolumes_length P, ndCellVolumes_sum P h⟩
+
+example : sumList (ndCellVolumes [⟨2, fun i => i, 0, 3⟩, ⟨1, fun _ => 1, 0, 2⟩]) = 3 * 2 := by
+  rw [(C14.cell_volumes_tile _ (by intro p hp; simp at hp; rcases hp with rfl | rfl <;> decide)).2]
+  norm_num [setVolume, prodList]
